@@ -208,7 +208,7 @@ How `BacktestManager.run()` treats such a backtest is read from the source (tool
   failing one never start;
 * pooled branches — a failing task never touches the other tasks (the worker hands the exception back as the task's
   result, `error_callback` reports it, the worker process lives on and keeps its `global_data`); `[x.wait() for x in
-  tasks]` waits for all of them (`poolWaits`), whereas `x.get()` re-raises the first failure inside the `with Pool`
+  tasks]` waits for all of them (`forkPoolWaits`, `argsPoolWaits`: one flag per branch), whereas `x.get()` re-raises the first failure inside the `with Pool`
   block, whose exit terminates the workers: tasks not finished by then have no result. -/
 
 /-- a backtest that may end in an exception -/
@@ -224,16 +224,19 @@ def Strat.neverFails {M C V N P O : Type} (s : Strat M C V N P O) : FStrat M C V
 structure FailMode where
   /-- the in-process loop catches a backtest's exception per strategy, reports it and goes on -/
   catchesInProcess : Bool
-  /-- the pooled branches collect the tasks with `.wait()` (false: `.get()`, which re-raises) -/
-  poolWaits : Bool
+  /-- the forked pool (Linux/macOS branch) collects its tasks with `.wait()` (false: `.get()`, which re-raises) -/
+  forkPoolWaits : Bool
+  /-- the same for the pool whose tasks get the data as an argument (Windows branch) -/
+  argsPoolWaits : Bool
 deriving Repr, DecidableEq
 
 /-- the code as it is now: both flags are read from the source on every run -/
 def FailMode.current : FailMode :=
-  { catchesInProcess := Gen.managerCatchesInProcessFailure, poolWaits := Gen.managerPoolWaitsForTasks }
+  { catchesInProcess := Gen.managerCatchesInProcessFailure, forkPoolWaits := Gen.managerForkPoolWaitsForTasks,
+    argsPoolWaits := Gen.managerArgsPoolWaitsForTasks }
 
 /-- the code before the repair: `actuator = _start_with_param_data(…); e_callback(actuator)` without a handler -/
-def FailMode.beforeRepair : FailMode := { catchesInProcess := false, poolWaits := true }
+def FailMode.beforeRepair : FailMode := { catchesInProcess := false, forkPoolWaits := true, argsPoolWaits := true }
 
 /-- `_start` of a backtest that may fail: the objects are left as `start` says, the result is `none` if it fails on the
     objects it was handed (the attached markets, the data) -/
@@ -318,10 +321,10 @@ def managerRunF {M C V N P O : Type} (env : Env M P) (md : Mode) (fm : FailMode)
     else if threads > cpu then .raised "TypeError"
     else if windows then
       if threads = 0 then .raised "ValueError"
-      else poolOutcome fm.poolWaits finished (runPoolArgsF env md cfg d strats)
+      else poolOutcome fm.argsPoolWaits finished (runPoolArgsF env md cfg d strats)
     else if ctxSet then .raised "RuntimeError"
     else if threads = 0 then .raised "ValueError"
-    else poolOutcome fm.poolWaits finished (runPoolF env md cfg assign (fun _ => d) 0 strats)
+    else poolOutcome fm.forkPoolWaits finished (runPoolF env md cfg assign (fun _ => d) 0 strats)
 
 /-- the specification: every strategy alone, run by a plain Actuator on the fresh configuration and the original data —
     its result, or none if that backtest fails -/
